@@ -47,16 +47,32 @@ func isReflectValueType(t *types.Named) bool {
 }
 
 func makeReflectValue(t types.Type, v value) value {
-	return structure{rtype{t}, v, 0}
+	return structure{rtype{t}, v, 0, (*value)(nil)}
 }
 
 func makeReflectValueF(t types.Type, v value, flags int) value {
-	return structure{rtype{t}, v, flags}
+	return structure{rtype{t}, v, flags, (*value)(nil)}
 }
 
 func rV2T(v value) rtype     { return v.(structure)[0].(rtype) }
 func rV2V(v value) value     { return v.(structure)[1] }
 func rV2F(v value) int       { return v.(structure)[2].(int) }
+
+// rV2A is the address of the cell an addressable Value stands for (nil otherwise).
+func rV2A(v value) *value {
+	s := v.(structure)
+	if len(s) < 4 {
+		return nil
+	}
+	a, _ := s[3].(*value)
+	return a
+}
+
+// withAddr marks a Value as addressable at cell a.
+func withAddr(v value, a *value) value {
+	s := v.(structure)
+	return structure{s[0], s[1], s[2], a}
+}
 func makeReflectType(rt rtype) value { return iface{rtypeType, rt} }
 
 func reflectPanic(fr *frame, msg string) targetPanic {
@@ -656,7 +672,7 @@ func ext۰reflect۰Value۰Index(fr *frame, args []value) value {
 		if i < 0 || i >= len(v) {
 			panic(reflectPanic(fr, "reflect: slice index out of range"))
 		}
-		return makeReflectValueF(t.Underlying().(*types.Slice).Elem(), copyVal(v[i]), fl)
+		return withAddr(makeReflectValueF(t.Underlying().(*types.Slice).Elem(), copyVal(v[i]), fl), &v[i])
 	case string, *SymStr:
 		b := strBytes(v)
 		if i < 0 || i >= len(b) {
@@ -668,7 +684,37 @@ func ext۰reflect۰Value۰Index(fr *frame, args []value) value {
 }
 
 func ext۰reflect۰Value۰CanAddr(fr *frame, args []value) value {
-	return false
+	return rV2A(args[0]) != nil
+}
+
+func ext۰reflect۰Value۰CanSet(fr *frame, args []value) value {
+	return rV2A(args[0]) != nil && rV2F(args[0])&rflagRO == 0
+}
+
+func ext۰reflect۰Value۰Set(fr *frame, args []value) value {
+	t := rV2T(args[0]).t
+	a := rV2A(args[0])
+	if t == nil || a == nil {
+		panic(reflectPanic(fr, "reflect: reflect.Value.Set using unaddressable value"))
+	}
+	if rV2F(args[0])&rflagRO != 0 || rV2F(args[1])&rflagRO != 0 {
+		panic(reflectPanic(fr, "reflect: reflect.Value.Set using value obtained using unexported field"))
+	}
+	et := rV2T(args[1]).t
+	if et == nil || !types.AssignableTo(et, t) {
+		panic(reflectPanic(fr, "reflect.Set: value is not assignable to type "+typeString(t)))
+	}
+	ev := rV2V(args[1])
+	if _, isI := t.Underlying().(*types.Interface); isI {
+		if _, srcI := et.Underlying().(*types.Interface); !srcI {
+			ev = iface{et, ev}
+		}
+	}
+	if fr.i.mon != nil {
+		fr.i.mon.onStore2(fr, a, "reflect.Value.Set")
+	}
+	store(t, a, copyVal(ev))
+	return nil
 }
 
 func ext۰reflect۰Value۰CanInterface(fr *frame, args []value) value {
@@ -697,7 +743,7 @@ func reflectElem(fr *frame, v value) value {
 			if x == nil {
 				return makeReflectValue(nil, nil)
 			}
-			return makeReflectValueF(pt.Elem(), copyVal(load(pt.Elem(), x)), fl)
+			return withAddr(makeReflectValueF(pt.Elem(), copyVal(load(pt.Elem(), x)), fl), x)
 		}
 	}
 	panic(valueErr(fr, "reflect.Value.Elem", v))
@@ -724,7 +770,13 @@ func ext۰reflect۰Value۰Field(fr *frame, args []value) value {
 	if !st.Field(i).Exported() {
 		fl |= rflagRO
 	}
-	return makeReflectValueF(st.Field(i).Type(), copyVal(rV2V(args[0]).(structure)[i]), fl)
+	fv := makeReflectValueF(st.Field(i).Type(), copyVal(rV2V(args[0]).(structure)[i]), fl)
+	if a := rV2A(args[0]); a != nil {
+		if sc, ok := (*a).(structure); ok && i < len(sc) {
+			fv = withAddr(fv, &sc[i])
+		}
+	}
+	return fv
 }
 
 func ext۰reflect۰Value۰Interface(fr *frame, args []value) value {
@@ -905,6 +957,7 @@ func prepareReflect(prog *ssa.Program) {
 			types.NewField(token.NoPos, r.Pkg, "t", tEface, false), // a lie
 			types.NewField(token.NoPos, r.Pkg, "v", tEface, false),
 			types.NewField(token.NoPos, r.Pkg, "flag", types.Typ[types.Int], false),
+			types.NewField(token.NoPos, r.Pkg, "addr", types.NewPointer(tEface), false),
 		}, nil))
 	}
 }
@@ -1118,4 +1171,48 @@ func deepEqT(x, y value, depth int) *smt.Term {
 		return equalsT(nil, x, y)
 	}
 	return smt.BoolC(x == y)
+}
+
+func ext۰reflect۰AppendSlice(fr *frame, args []value) value {
+	t := rV2T(args[0]).t
+	u := rV2T(args[1]).t
+	if t == nil || u == nil {
+		panic(valueErr(fr, "reflect.AppendSlice", args[0]))
+	}
+	st, ok := t.Underlying().(*types.Slice)
+	su, ok2 := u.Underlying().(*types.Slice)
+	if !ok || !ok2 || !types.Identical(st.Elem(), su.Elem()) {
+		panic(reflectPanic(fr, "reflect.AppendSlice: slice types do not match"))
+	}
+	a, b := rV2V(args[0]).([]value), rV2V(args[1]).([]value)
+	if fr.i.mon != nil {
+		fr.i.mon.onAppend(fr, a, len(b))
+	}
+	cp := make([]value, len(b))
+	for k := range b {
+		cp[k] = copyVal(b[k])
+	}
+	return makeReflectValue(t, appendVals(st.Elem(), a, cp))
+}
+
+func ext۰reflect۰Value۰Slice3(fr *frame, args []value) value {
+	t := rV2T(args[0]).t
+	x, ok := rV2V(args[0]).([]value)
+	if t == nil || !ok {
+		panic(valueErr(fr, "reflect.Value.Slice3", args[0]))
+	}
+	lo, hi, mx := args[1].(int), args[2].(int), args[3].(int)
+	if lo < 0 || hi < lo || mx < hi || mx > cap(x) {
+		panic(reflectPanic(fr, "reflect.Value.Slice3: slice index out of bounds"))
+	}
+	return makeReflectValueF(t, x[lo:hi:mx], rV2F(args[0])&rflagRO)
+}
+
+func ext۰reflect۰Value۰Addr(fr *frame, args []value) value {
+	t := rV2T(args[0]).t
+	a := rV2A(args[0])
+	if t == nil || a == nil {
+		panic(reflectPanic(fr, "reflect.Value.Addr of unaddressable value"))
+	}
+	return makeReflectValueF(types.NewPointer(t), a, rV2F(args[0])&rflagRO)
 }
